@@ -1,6 +1,6 @@
-"""Generates the CrossHair condition functions for C11: one per (N users, ordering of the running cores).
-The orderings r_p0 <= r_p1 <= ... over all permutations p cover every input (ties included); they shard the
-path space across processes."""
+"""Generates the CrossHair condition functions for C11: one per (N users, ordering of the running cores[,
+ordering of the totals]).  The orderings r_p0 <= r_p1 <= ... (and t_p0 <= t_p1 <= ..., t = running + ready)
+over all permutations cover every input (ties included); they shard the path space across processes."""
 import itertools
 
 TEMPLATE = '''
@@ -27,7 +27,11 @@ def reach{N}_{S}({ARGS}, free: int) -> bool:
 
 
 def shards(n):
-    return list(itertools.permutations(range(n)))
+    """(order of the running cores, order of the totals running+ready or None).  N >= 3 is sharded on both."""
+    rp = list(itertools.permutations(range(n)))
+    if n < 3:
+        return [(p, None) for p in rp]
+    return [(p, t) for p in rp for t in rp]
 
 
 def source(ns, abits, nmax):
@@ -35,15 +39,18 @@ def source(ns, abits, nmax):
     out = ['import harness.C11_fair as H\n', f'H.configure({abits}, {nmax})\n']
     names = []
     for n in ns:
-        for s, perm in enumerate(shards(n)):
+        for s, (perm, tperm) in enumerate(shards(n)):
             rs = [f'r{i}' for i in range(n)]
             qs = [f'q{i}' for i in range(n)]
             args = ', '.join(f'{r}: int, {q}: int' for r, q in zip(rs, qs))
             rng = ' and '.join(f'0 <= {x} < {cap}' for x in rs + qs)
             order = ' and '.join(f'r{perm[i]} <= r{perm[i + 1]}' for i in range(n - 1)) or 'True'
+            if tperm is not None:
+                order += ' and ' + ' and '.join(
+                    f'r{tperm[i]} + q{tperm[i]} <= r{tperm[i + 1]} + q{tperm[i + 1]}' for i in range(n - 1))
             out.append(TEMPLATE.format(N=n, S=s, ARGS=args, RANGE=rng, ORDER=order, CAP=cap,
                                        RS=', '.join(rs), QS=', '.join(qs)))
-            names.append((n, s, perm))
+            names.append((n, s, (perm, tperm)))
     return '\n'.join(out), names
 
 
